@@ -585,6 +585,86 @@ def ob_conjugate_mvn_tril(dim):
     return Ob("C14.conjugate.mvn_scale_tril[dim=%d]" % dim, "B", body, clause="exact at the true posterior for the full-covariance Gaussian family (bounded)", funcs=FUNCS)
 
 
+def _mvn_family_problems(dim, parameterization, sharp, blocks):
+    """correlated normal-normal model; q = shipped MultivariateNormal in the given parameterisation set to the exact posterior; x is one
+    parameter or a list of parameters (blocks: their sizes), the way a model file lists the parameters of a variational distribution"""
+    from torchtree.core.parameter import Parameter
+    from torchtree.distributions.distributions import Distribution
+    from torchtree.distributions.joint_distribution import JointDistributionModel
+    from torchtree.distributions.multivariate_normal import MultivariateNormal
+    g = torch.Generator().manual_seed(100 * dim + len(blocks or ()))
+    Amat = torch.randn(dim, dim, generator=g, dtype=torch.float64)
+    S0 = Amat @ Amat.T + dim * torch.eye(dim, dtype=torch.float64)
+    m0 = torch.randn(dim, generator=g, dtype=torch.float64)
+    sig2 = (torch.rand(dim, generator=g, dtype=torch.float64) + 0.5) * (1e-6 if sharp else 1.0)   # sharp: many precise observations
+    y = m0 + torch.randn(dim, generator=g, dtype=torch.float64)
+    if blocks:
+        xs, start = [], 0
+        for k, b in enumerate(blocks):
+            xs.append(Parameter("x%d" % k, m0[start:start + b].clone()))
+            start += b
+        x = xs
+    else:
+        x = Parameter("x", m0.clone())
+    prior = MultivariateNormal("prior", x, Parameter("m0", m0), covariance_matrix=Parameter("S0", S0))
+    like = MultivariateNormal("like", x, Parameter("y", y), covariance_matrix=Parameter("noise", torch.diag(sig2)))   # symmetric in x and y
+    joint = JointDistributionModel("joint", [prior, like])
+    prec = torch.linalg.inv(S0) + torch.diag(1.0 / sig2)
+    post_cov = torch.linalg.inv(prec)
+    post_cov = (post_cov + post_cov.T) / 2
+    post_mean = post_cov @ (torch.linalg.inv(S0) @ m0 + y / sig2)
+    if parameterization == "covariance_matrix":
+        kw = {"covariance_matrix": Parameter("qS", post_cov)}
+    elif parameterization == "precision_matrix":
+        kw = {"precision_matrix": Parameter("qP", (prec + prec.T) / 2)}
+    else:
+        kw = {"scale_tril": Parameter("qL", torch.linalg.cholesky(post_cov))}
+    q = MultivariateNormal("q", x, Parameter("qm", post_mean), **kw)
+    logz = float(torch.distributions.MultivariateNormal(m0, covariance_matrix=S0 + torch.diag(sig2)).log_prob(y))
+    bad, n = [], 0
+    for okind in ("ELBO", "KLpq", "VR0.5", "CUBO"):
+        for samples in ((1,), (5,), (4, 3)):
+            if okind == "KLpq" and len(samples) == 2:
+                continue     # known finding C14.value2d.KLpq
+            obj = make_objective(okind, q, joint, samples)
+            for draw in range(2):
+                torch.manual_seed(4 + draw)
+                try:
+                    val = float(obj())
+                except Exception as e:
+                    from vt.scenario import _raised_in_repo
+                    if not _raised_in_repo(e):
+                        raise
+                    val = "%s: %s" % (type(e).__name__, str(e)[:100])
+                n += 1
+                if isinstance(val, str) or not (val == val) or abs(val - logz) > 1e-7 * max(1.0, abs(logz)):
+                    bad.append("%s, samples %s, draw %d: returns %s, log marginal likelihood %r" % (okind, list(samples), draw, val if isinstance(val, str) else repr(val), logz))
+            if blocks:
+                widths = [int(p_.tensor.shape[-1]) for p_ in x]
+                if widths != list(blocks):
+                    bad.append("%s, samples %s: after the draws the listed parameters have widths %s, they were built with %s" % (okind, list(samples), widths, list(blocks)))
+    return bad, n
+
+
+def ob_conjugate_mvn_family(dim, parameterization, sharp, blocks):
+    label = "dim=%d,%s,%s,x=%s" % (dim, parameterization, "sharp posterior" if sharp else "unit scale", "one parameter" if not blocks else "list of %s" % (list(blocks),))
+
+    def body():
+        bad, n = _mvn_family_problems(dim, parameterization, sharp, blocks)
+        if bad:
+            raise Refuted("correlated normal-normal model, q = MultivariateNormal(%s) set to the posterior (%s): %s" % (parameterization, label, "; ".join(bad[:3])),
+                          witness={"case": label, "problems": bad[:10]}, confirmed=True,
+                          replay={"kind": "custom", "contract": "C14", "func": "replay_conjugate_mvn_family",
+                                  "args": {"dim": dim, "parameterization": parameterization, "sharp": sharp, "blocks": list(blocks) if blocks else None}})
+        return {"backend": "concrete", "cases": n, "statement": "%s: %d objective evaluations equal the closed-form log marginal likelihood to 1e-7" % (label, n)}
+    return Ob("C14.conjugate.mvn_family[%s]" % label, "B", body, clause="exact at the true posterior for the shipped multivariate normal family in each of its parameterisations, sharp posteriors, variational parameters listed one by one (bounded)", funcs=FUNCS)
+
+
+def replay_conjugate_mvn_family(args):
+    bad, _ = _mvn_family_problems(int(args["dim"]), args["parameterization"], bool(args["sharp"]), tuple(args["blocks"]) if args.get("blocks") else None)
+    return (False, "; ".join(bad[:3])) if bad else (True, "held")
+
+
 def replay_conjugate_mvn_tril(args):
     try:
         ob_conjugate_mvn_tril(int(args["dim"])).fn()
@@ -647,6 +727,12 @@ def obligations(tier, seed):
         obs.append(ob_conjugate_many_terms(naming))
     for dim in (1, 2, 3, 4):
         obs.append(ob_conjugate_mvn_tril(dim))
+    for parameterization in ("covariance_matrix", "precision_matrix", "scale_tril"):
+        for sharp in (False, True):
+            obs.append(ob_conjugate_mvn_family(3, parameterization, sharp, None))
+        obs.append(ob_conjugate_mvn_family(4, parameterization, False, (1, 2, 1)))
+    obs.append(ob_conjugate_mvn_family(5, "scale_tril", True, (2, 1, 1, 1)))
+    obs.append(ob_conjugate_mvn_family(2, "covariance_matrix", False, (1, 1)))
     R = (1, 2, 3) if tier == "quick" else (1, 2, 3, 4, 5)
     kinds = ["ELBO", "KLpq", "VR0", "VR0.5", "CUBO"]
     for kind in kinds:
